@@ -379,6 +379,26 @@ pub fn parts(id: &str, tier: &str) -> Option<(Vec<Part>, Info)> {
         if id == "C16" {
             v.push(Part::Churn);
         }
+        if matches!(id, "C11" | "C12") {
+            // deep / wide tries for the view checks (few cases: every view x every query is quadratic)
+            if let Some(Part::Hist(first)) = v.first() {
+                let mut big = first.clone();
+                big.label = if id == "C11" { "C11big" } else { "C12big" };
+                big.max_uni = 60;
+                big.min_uni = 30;
+                big.min_ops = 60;
+                big.max_ops = 140;
+                big.cases = if tier == "thorough" { 40 } else { if id == "C11" { 10 } else { 5 } };
+                big.shards = if tier == "thorough" { 16 } else { 2 };
+                big.full_queries = false;
+                big.weights.insert = 140;
+                big.weights.clear = 0;
+                big.weights.from_iter = 0;
+                big.weights.remove_children = 1;
+                big.weights.retain = 1;
+                v.push(Part::Hist(big));
+            }
+        }
         if matches!(id, "C01" | "C02" | "C03" | "C04" | "C09" | "C10" | "C15" | "C16" | "C18" | "C20") {
             // large universes and long histories: deep tries, many entries, long free lists
             if let Some(Part::Hist(first)) = v.first() {
